@@ -15,10 +15,12 @@ import (
 	"strconv"
 	"strings"
 	"time"
+	"unsafe"
 
 	"github.com/xelaj/mtproto"
 	"github.com/xelaj/mtproto/internal/encoding/tl"
 	"github.com/xelaj/mtproto/internal/mtproto/objects"
+	"github.com/xelaj/mtproto/internal/utils"
 	"github.com/xelaj/mtproto/verifharness/csched"
 	"github.com/xelaj/mtproto/verifharness/refserver"
 )
@@ -26,7 +28,7 @@ import (
 var watchdog = watchdogFromEnv()
 
 type callSpec struct {
-	kind   string // obj bool vecbare vecobj err
+	kind   string // obj bool vecbare vecobj err ping (ping = obj issued through objects.Ping, the pinger's path)
 	hinted bool
 	token  int64
 }
@@ -74,6 +76,17 @@ type run struct {
 	status  string
 	random  bool
 	dir     string
+
+	maxID    int64  // highest client msg_id seen at an "idgen" point so far
+	preset   int64  // lastMsgID written into the client before the run (0 = untouched)
+	skew     string // none | ahead1m | ahead1h | just4
+	bumps    int    // sends for which the wall clock read no more than the last id
+	bumpRun  int    // current / longest run of consecutive such sends
+	bumpMax  int
+	blocked  map[string]bool // senders released from "prelock" that did not come back: waiting for the send lock
+	broken   bool            // a second sender got past "prelock" while another one was between "idgen" and its return
+	nprobes  int
+	nblocked int
 }
 
 type traceWriter struct{ f *os.File }
@@ -153,6 +166,7 @@ func (r *run) start(idx, ncallers int) {
 	if ar.Point != "read" {
 		trouble("receive loop first parked at %q", ar.Point)
 	}
+	r.blocked = map[string]bool{}
 	for t := 0; t < ncallers; t++ {
 		c := &callerState{name: "c" + strconv.Itoa(t), cmd: make(chan callSpec)}
 		r.callers = append(r.callers, c)
@@ -169,6 +183,18 @@ func (r *run) callerLoop(c *callerState, ready chan struct{}) {
 		req := &objects.PingParams{PingID: sp.token}
 		var v interface{}
 		var err error
+		if sp.kind == "ping" {
+			// exactly what the pinger goroutine does every minute: m.ping(id) = objects.Ping(m, id)
+			var pong *objects.Pong
+			pong, err = objects.Ping(r.cl, sp.token)
+			if err == nil {
+				v = pong
+			} else if e, ok := errCause(err).(*mtproto.ErrResponseCode); ok {
+				err = e
+			}
+			r.sc.Done(c.name, showResult(v, err))
+			continue
+		}
 		if sp.hinted {
 			var ht reflect.Type
 			if sp.kind == "vecobj" {
@@ -217,8 +243,60 @@ func showResult(v interface{}, err error) string {
 	}
 }
 
+func errCause(err error) error {
+	for {
+		u, ok := err.(interface{ Unwrap() error })
+		if !ok {
+			c, ok2 := err.(interface{ Cause() error })
+			if !ok2 {
+				return err
+			}
+			err = c.Cause()
+			continue
+		}
+		err = u.Unwrap()
+	}
+}
+
+// setSkew puts the client into one of the clock regimes of the property: lastMsgID is the only state
+// newMsgID keeps, so writing it is the same as "the wall clock once read that far ahead".
+//
+//	ahead1m / ahead1h: every id of the run must come from last+4 (the clock reads less than the last id)
+//	just4: the last id is 4 below now (first send: clock just ahead)       none: 0, as after NewMTProto
+//
+// The field is unexported; it is reached through reflection so that the check needs no extra hook. A tree
+// without the field (before the C10 repair) simply stays in regime none.
+func (r *run) setSkew(mode string) {
+	r.skew = "none"
+	if mode == "" || mode == "none" {
+		return
+	}
+	f := reflect.ValueOf(r.cl).Elem().FieldByName("lastMsgID")
+	if !f.IsValid() || f.Kind() != reflect.Int64 {
+		r.out.line("N", strconv.Itoa(r.idx), "no lastMsgID field in this tree: clock regime "+mode+" not applied")
+		return
+	}
+	now := utils.GenerateMessageId()
+	var v int64
+	switch mode {
+	case "ahead1m":
+		v = now + 60<<32
+	case "ahead1h":
+		v = now + 3600<<32
+	case "just4":
+		v = now - 4
+	default:
+		trouble("unknown clock regime %q", mode)
+	}
+	*(*int64)(unsafe.Pointer(f.UnsafeAddr())) = v
+	r.preset = v
+	r.skew = mode
+}
+
 func expectedResult(sp callSpec) string {
 	switch sp.kind {
+	case "ping":
+		return "obj:" + strconv.FormatInt(sp.token, 10)
 	case "bool":
 		return "bool:" + strconv.FormatInt(sp.token&1, 10)
 	default:
@@ -229,7 +307,7 @@ func expectedResult(sp callSpec) string {
 func resultBody(sp callSpec) []byte {
 	p := sp.token
 	switch sp.kind {
-	case "obj":
+	case "obj", "ping":
 		return refserver.Object(&objects.Pong{MsgID: p, PingID: ^p})
 	case "bool":
 		return refserver.Bool(p&1 == 1)
@@ -271,7 +349,7 @@ func (r *run) enabled(actor string) bool {
 	isRx := actor == r.rx
 	switch p.Point {
 	case "prelock":
-		return r.lock == ""
+		return r.lock == "" || r.broken
 	case "idgen", "written", "dispatch":
 		return true
 	case "prerecv":
@@ -334,8 +412,12 @@ func (r *run) onArrival(actor string, ar csched.Arrival) []string {
 		if r.nframes == 1 || f.MsgID > r.lastID {
 			inc = "1"
 		}
+		b4 := "0" // exactly 4 above the previous frame: the id came from the bump, not from the clock
+		if r.nframes > 1 && f.MsgID == r.lastID+4 {
+			b4 = "1"
+		}
 		r.lastID = f.MsgID
-		items = append(items, fmt.Sprintf("W:%s:%d:%d:%s%s", kind, f.SeqNo, f.MsgID&3, inc, extra))
+		items = append(items, fmt.Sprintf("W:%s:%d:%d:%s:b%s%s", kind, f.SeqNo, f.MsgID&3, inc, b4, extra))
 		if c != nil && c.active != nil {
 			c.active.frame = f.Index
 			c.active.msgID = f.MsgID
@@ -389,13 +471,97 @@ func (r *run) doCall(t int, sp callSpec) {
 	r.record(lbl, strings.Join(items, " "))
 }
 
+// clk is the clock reading handed to the model for the block that produced msg_id `id`.
+// If the harness's own reading of the wall clock (taken after the client's) is not above the highest id
+// seen so far, the client's reading was not either: the model gets the harness's reading and has to arrive
+// at the id by its own bump (last+4). Otherwise the id itself is the witness of what the client read.
 func (r *run) clk(id int64) string {
-	d := id - r.base
+	now := utils.GenerateMessageId()
+	w := id
+	if r.maxID != 0 && now <= r.maxID {
+		w = now
+		r.bumps++
+		r.bumpRun++
+		if r.bumpRun > r.bumpMax {
+			r.bumpMax = r.bumpRun
+		}
+	} else {
+		r.bumpRun = 0
+	}
+	if id > r.maxID {
+		r.maxID = id
+	}
+	d := w - r.base
 	if d%4 != 0 {
 		return "x" + strconv.FormatInt(d, 10)
 	}
 	return strconv.FormatInt(d/4, 10)
 }
+
+// afterUnlock: senders that were found blocked on the send lock get it as soon as the holder returns;
+// exactly one of them arrives at "idgen". In the model that is a separate step of that actor.
+func (r *run) afterUnlock() {
+	for r.lock == "" && len(r.blocked) > 0 {
+		var names []string
+		for n := range r.blocked {
+			names = append(names, n)
+		}
+		sort.Strings(names)
+		ar, err := r.sc.AwaitAny(names, watchdog)
+		if err != nil {
+			st := ""
+			if e, ok := err.(*csched.ErrStuck); ok {
+				st = e.Stack
+			}
+			panic(stuck{what: "lock-waiter", stack: st})
+		}
+		delete(r.blocked, ar.Actor)
+		r.lock = ar.Actor
+		show := ar.Actor
+		if ar.Actor == r.rx {
+			show = "rx"
+		}
+		clk := "0"
+		if ar.Point == "idgen" {
+			clk = r.clk(ar.ID)
+		}
+		items := r.onArrival(ar.Actor, ar)
+		r.slog("auto " + show)
+		r.record("step "+show+" "+clk, strings.Join(items, " "))
+	}
+}
+
+// doProbe releases a sender parked at "prelock" although another sender is between "idgen" and its
+// return from sendPacket. With a send lock that covers id generation and write the probed sender must
+// block (no arrival within the probe time-out); if it comes back with an id of its own the lock does not
+// order id generation with the write, and the schedule goes on to let it write first.
+func (r *run) doProbe(actor string) {
+	show := actor
+	if actor == r.rx {
+		show = "rx"
+	}
+	r.nprobes++
+	r.sc.Release(actor)
+	ar, ok := r.sc.TryAwait(actor, probeTimeout)
+	if !ok {
+		r.blocked[actor] = true
+		r.nblocked++
+		r.record("probe "+show, "blocked")
+		return
+	}
+	r.broken = true
+	items := r.onArrival(actor, ar)
+	r.record("probe "+show, strings.Join(items, " "))
+	// let the overtaker write and return before the overtaken sender continues
+	for i := 0; i < 2; i++ {
+		if p := r.sc.Parked(actor); p != nil && (p.Point == "idgen" || p.Point == "written") {
+			r.slog("auto-step " + show)
+			r.doStep(actor)
+		}
+	}
+}
+
+var probeTimeout = 40 * time.Millisecond
 
 // doStep releases one enabled actor (and its rendezvous partner) and waits for the arrivals.
 func (r *run) doStep(actor string) {
@@ -443,6 +609,7 @@ func (r *run) doStep(actor string) {
 		items = r.onArrival(actor, ar)
 	}
 	r.record("step "+show+" "+clk, strings.Join(items, " "))
+	r.afterUnlock()
 }
 
 // ---- server messages ------------------------------------------------------------------
@@ -502,7 +669,11 @@ func (r *run) build(b *bodySpec) ([]byte, string) {
 		if b.op == "err" {
 			return refserver.RpcResult(id, body), fmt.Sprintf("err %s %s %d", r.norm(id), g, b.tok)
 		}
-		return refserver.RpcResult(id, body), fmt.Sprintf("res %s %s %s %d", r.norm(id), g, b.kind, b.tok)
+		mk := b.kind
+		if mk == "ping" {
+			mk = "obj"
+		}
+		return refserver.RpcResult(id, body), fmt.Sprintf("res %s %s %s %d", r.norm(id), g, mk, b.tok)
 	case "gz":
 		inner, txt := r.build(b.inner)
 		return refserver.Gzip(inner), "gz " + txt
@@ -673,7 +844,10 @@ func (r *run) finish() {
 			r.out.line("V", idx, "C10", "msgid-not-multiple-of-4", fmt.Sprintf("frame %d msg_id mod 4 = %d", i, f.MsgID&3))
 		}
 		sec := f.MsgID >> 32
-		if sec < r.t0.Unix()-1 || sec > t1.Unix()+1 {
+		fromClock := sec >= r.t0.Unix()-1 && sec <= t1.Unix()+1
+		// with lastMsgID preset ahead of the clock every id is the previous one + 4
+		fromBump := r.preset != 0 && f.MsgID > r.preset && f.MsgID <= r.preset+int64(4*(len(frames)+1))
+		if !fromClock && !fromBump {
 			r.out.line("V", idx, "C10", "msgid-not-from-clock", fmt.Sprintf("frame %d msg_id seconds outside the run's clock window", i))
 		}
 		content := refserver.IsContentRelated(f)
@@ -717,6 +891,7 @@ func (r *run) finish() {
 	seq, _, rk, hk := r.cl.VerifSnapshot()
 	sort.Ints(rk)
 	r.out.line("F", idx, fmt.Sprintf("seq=%d table=%d hints=%d", seq, len(rk), len(hk)))
+	r.out.line("X", idx, fmt.Sprintf("skew=%s bumps=%d bumpmax=%d probes=%d blocked=%d broken=%v", r.skew, r.bumps, r.bumpMax, r.nprobes, r.nblocked, r.broken))
 	r.out.line("E", idx, r.status)
 }
 
